@@ -811,6 +811,50 @@ int main(int argc, char** argv) {
     }, GC);
   }
 
+  // ---- (a4) needles: lattice boxes {0..a}x{0..b}x{0..c} squeezed to aspect ratios of 10^3 .. 3x10^4 in two directions (axis-aligned,
+  // so that faces stay exactly coplanar - rotated boxes fall under the known coplanar-up-to-rounding finding): wide enough (>= 3e-5 of the length) to be far above any rounding or private epsilon, thin enough to be
+  // mistaken for a line by a test that compares a distance with a squared distance
+  {
+    static const double WID[3] = {1e-3, 1e-4, 3e-5};
+    R.phase("hull-needles", 4 * 2 * 2 * 3 * 3, 1, [&](uint64_t idx, Ctx& c) {
+      auto d = digits(idx, {4, 2, 2, 3, 3});
+      const int a = d[0] + 1, b = d[1] + 1, cc = d[2] + 1;
+      const double w = WID[d[3]];
+      const int axis = d[4];
+      std::vector<D3> in;
+      for (int x = 0; x <= a; ++x)
+        for (int y = 0; y <= b; ++y)
+          for (int z = 0; z <= cc; ++z) {
+            double p[3] = {x / (double)a * 4.0, y * w, z * w};  // long axis first
+            double q[3] = {p[(3 - axis) % 3], p[(4 - axis) % 3], p[(5 - axis) % 3]};  // long axis along x, y or z
+            in.push_back({q[0], q[1], q[2]});
+          }
+      std::ostringstream k;
+      k << "needle:" << a << "x" << b << "x" << cc << ",w=" << w << ",axis=" << axis;
+      c.describe(k.str());
+      std::vector<vec3> pts;
+      for (auto& p : in) pts.push_back({p.x, p.y, p.z});
+      Manifold h = Manifold::Hull(pts);
+      c.count("input_points", (int64_t)in.size());
+      std::string r = judgeGeneralHull(c, h, in, 0);
+      // the volume of the hull of a full box is the box
+      if (r.empty() && std::fabs(h.Volume() - 4.0 * b * w * cc * w) > 1e-6 * 4.0 * b * w * cc * w) {
+        std::ostringstream o;
+        o.precision(17);
+        o << "volume|hull volume " << h.Volume() << " but the box has " << 4.0 * b * w * cc * w;
+        r = o.str();
+      }
+      uint64_t hh = canonGeomHash(h.GetMeshGL64());
+      c.distinct(hh);
+      if (!h.IsEmpty()) c.nontrivial(hh);
+      if (!r.empty()) {
+        auto p = r.find('|');
+        c.viol("hull/" + r.substr(0, p) + ":" + k.str(), r.substr(0, p), r.substr(p + 1));
+      }
+      if (idx % 37 == 0) c.sample(k.str());
+    }, {"hulls", "status_propagated", "flat_nonempty", "rank_undecided", "sliver_tris_skipped", "input_points"});
+  }
+
   // ---- (c) Minkowski sum / difference
   {
     std::vector<const char*> MC = {"cases", "vertex_sums", "samples_in_operand", "sample_plus_vertex", "samples_in_sum", "diff_empty", "diff_vertices",
